@@ -59,7 +59,7 @@ use std::time::Duration;
 pub static INFO: PropInfo = PropInfo {
     id: "C12",
     level: "exploration",
-    rule: "one evaluation = one random sequence of 400-1600 public API calls (after a scripted prelude that walks through every cause of disconnection once) on one RenetServer with 2-4 client ids and a pool of up to 6 RenetClients (remote peers, stand-alone, local clients): add/remove_connection, disconnect, disconnect_all, new/disconnect/process_local_client, send/broadcast(_except)/receive, process_packet(_from) with honest, mutated, crafted and random datagrams, get_packets_to_send, update, get_event (drained at random moments, sometimes one event at a time; in a third of the runs one churn of 130-220 add / disconnect / remove rounds with no polling at all, 260+ unread events, then a full drain), set_connected/connecting, disconnect, disconnect_due_to_transport, over-budget sends. A reference state machine per id (Absent | Healthy | Dead(first reason)) and per client observes presence and status after every call and compares: a dead object stays dead with the same reason, emits nothing, yields nothing, accepts nothing; the per-id event stream alternates and each removal reports the first reason; after every call the server's derived views (connected_clients, clients_id, disconnections_id, is_connected) must equal the reference states - a disconnected connection that is still in the table is disconnected in every view; an application or transport cause (disconnect, disconnect_all, disconnect_local_client, RenetClient::disconnect, disconnect_due_to_transport) is unconditional: applied to an object in any state, connecting included, the object is disconnected or gone when the call returns. Non-trivial = at least 3 distinct causes of disconnection occurred, at least one removal of an already-dead connection was reported and at least 20 probes were made on dead objects; distinct = distinct hashes of (operation, observed transition, event) history.",
+    rule: "one evaluation = one random sequence of 400-1600 public API calls (after a scripted prelude that walks through every cause of disconnection once) on one RenetServer with 2-4 client ids and a pool of up to 6 RenetClients (remote peers, stand-alone, local clients): add/remove_connection, disconnect, disconnect_all, new/disconnect/process_local_client, send/broadcast(_except)/receive, process_packet(_from) with honest, mutated, crafted and random datagrams, get_packets_to_send, update, get_event (drained at random moments, sometimes one event at a time; in a third of the runs one churn of 130-220 add / disconnect / remove rounds with no polling at all, 260+ unread events, then a full drain), set_connected/connecting, disconnect, disconnect_due_to_transport, over-budget sends. A reference state machine per id (Absent | Healthy | Dead(first reason)) and per client observes presence and status after every call and compares: a dead object stays dead with the same reason, emits nothing, yields nothing, accepts nothing; the per-id event stream alternates and each removal reports the first reason; a reliable send that the library's own can_send_message refuses is a cause too (budget): the connection is disconnected when send_message returns, whatever state it was in; after every call the server's derived views (connected_clients, clients_id, disconnections_id, is_connected) must equal the reference states - a disconnected connection that is still in the table is disconnected in every view; an application or transport cause (disconnect, disconnect_all, disconnect_local_client, RenetClient::disconnect, disconnect_due_to_transport) is unconditional: applied to an object in any state, connecting included, the object is disconnected or gone when the call returns. Non-trivial = at least 3 distinct causes of disconnection occurred, at least one removal of an already-dead connection was reported and at least 20 probes were made on dead objects; distinct = distinct hashes of (operation, observed transition, event) history.",
     assumptions: &[
         "symmetric channel lists (client list == server list) in this driver; lists that differ between the directions, local clients included, are exercised by C01-C03 (asymmetric kinds) and by C11's host-player runs",
         "a disconnect observed during a call that is not a named cause (update, receive_message, status setters) is adopted as the first reason and counted, not judged",
@@ -997,7 +997,15 @@ impl World {
         if matches!(self.sst[&id], St::Dead(_)) {
             out.count("dead_send_attempt");
         }
+        let reliable = self.chans.iter().any(|c| c.id == ch && c.kind != Kind::Unreliable);
+        let was_live = self.sst[&id] == St::Alive;
         self.server.send_message(id, ch, m);
+        if !fits && reliable && was_live && self.server.is_connected(id) {
+            let d = format!("server connection {}: send_message(ch{}, {} bytes) although can_send_message was false left it connected", id, ch, len);
+            self.violate(ctx, out, "C12/cause-ignored/server/send_message-over-budget", "every cause of disconnection (application, peer packet, budget, transport) disconnects the connection it is applied to", d);
+        } else if !fits && reliable && was_live {
+            out.count("budget_cause_checked");
+        }
         self.after(
             "send_message",
             Expect::Exactly(DR::SendChannelError {
@@ -1131,7 +1139,16 @@ impl World {
         if self.clients[k].dead.is_some() {
             out.count("dead_send_attempt");
         }
+        let reliable = self.chans.iter().any(|c| c.id == ch && c.kind != Kind::Unreliable);
+        let was_live = self.clients[k].dead.is_none();
         self.clients[k].c.send_message(ch, m);
+        if !fits && reliable && was_live && !self.clients[k].c.is_disconnected() {
+            let c = &self.clients[k].c;
+            let d = format!("client k{} (connected={} connecting={}): send_message(ch{}, {} bytes) although can_send_message was false left it alive", k, c.is_connected(), c.is_connecting(), ch, len);
+            self.violate(ctx, out, "C12/cause-ignored/client/send_message-over-budget", "every cause of disconnection (application, peer packet, budget, transport) disconnects the connection it is applied to", d);
+        } else if !fits && reliable && was_live {
+            out.count("budget_cause_checked");
+        }
         self.after(
             "client.send_message",
             Expect::Unspecified,
